@@ -32,6 +32,8 @@ type cliCase struct {
 	Cmd       string    `json:"cmd"`
 	Ali       gen.Ali   `json:"ali"`
 	Others    []gen.Ali `json:"others"`
+	More      []gen.Ali `json:"more"`   // further alignments of the input file (then a Phylip stream)
+	Layout    int       `json:"layout"` // Phylip output: 0 blocks of 10 in lines of 60, 1 --one-line, 2 --no-block, 3 both
 	Start     int       `json:"start"`
 	Len       int       `json:"len"`
 	Step      int       `json:"step"`
@@ -231,7 +233,56 @@ func genCLI(t *rapid.T, cmds []string) cliCase {
 		mc := genMat(t)
 		c.Ali = stripStars(mc.Ali, true)
 	}
+	// several alignments in one (Phylip) input file, for the commands that loop over the input stream
+	if (multiCmd[c.Cmd] || c.Cmd == "concat") && uni(t, 3, "multi") == 0 {
+		n := 1 + uni(t, 2, "nmore")
+		for i := 0; i < n; i++ {
+			c.More = append(c.More, genMore(t, c))
+		}
+		c.Layout = uni(t, 4, "layout")
+	}
 	return c
+}
+
+// genMore draws a further alignment of the input stream: same kind of content as the first one, another
+// length, other gap patterns, the same row names (rarely fewer rows, so that a reference can be missing)
+func genMore(t *rapid.T, c cliCase) gen.Ali {
+	letters := ntPlain
+	if c.Ali.Alphabet == "aa" {
+		letters = gen.AA20
+	}
+	l := aliLen(c.Ali) + rapid.IntRange(-1, 3).Draw(t, "dl")
+	if l < 1 {
+		l = 1
+	}
+	switch c.Cmd {
+	case "subsites-informative":
+		n := rapid.IntRange(4, 6).Draw(t, "rows4")
+		a := gen.Columnwise(t, "ACGT", n, n, 1, 12, "nt")
+		b := []byte(a.Rows[0].Seq)
+		for i := range b {
+			if uni(t, 3, "g0") == 0 {
+				b[i] = '-'
+			}
+		}
+		a.Rows[0].Seq = string(b)
+		return a
+	case "diff":
+		return stripStars(genMat(t).Ali, false)
+	case "diff-reverse":
+		return stripStars(genMat(t).Ali, true)
+	case "concat":
+		return genNamed(t, drawNames(t, []string{"n0", "n1", "n2", "n3", "n4"}, "m"), c.Ali.Alphabet, letters, genLen(t, 1, 10))
+	}
+	n := len(c.Ali.Rows)
+	if n > 1 && uni(t, 8, "fewer") == 0 {
+		n--
+	}
+	a := gen.Ali{Alphabet: c.Ali.Alphabet}
+	for i := 0; i < n; i++ {
+		a.Rows = append(a.Rows, gen.Row{Name: c.Ali.Rows[i].Name, Seq: genSeqRow(t, letters, l)})
+	}
+	return a
 }
 
 // stripStars keeps the letters the command line reader takes without translation; with dots,
@@ -350,342 +401,412 @@ func modelInformative(rows []gen.Row) []int {
 	return out
 }
 
+// multiCmd: the commands that loop over every alignment of the input stream (cmd/subseq.go, subsites.go,
+// seq.go, transpose.go, diff.go: `for al := range aligns.Achan`); concat loops too, but appends them
+var multiCmd = map[string]bool{"subseq": true, "subseq-ref": true, "subseq-step": true, "subsites": true, "subsites-ref": true,
+	"subsites-informative": true, "trim": true, "transpose": true, "diff": true, "diff-reverse": true}
+
+// samePhylipRows compares rows read from a Phylip stream with the expected ones; rows of an alignment
+// of length 0 are not printed, their names cannot be compared
+func samePhylipRows(got, want []gen.Row) bool {
+	if len(got) != len(want) {
+		return false
+	}
+	for i := range got {
+		if got[i].Seq != want[i].Seq || (got[i].Name != want[i].Name && !(want[i].Seq == "" && got[i].Name == "?")) {
+			return false
+		}
+	}
+	return true
+}
+
 func checkCLI(dir string, c cliCase) (o pbt.Outcome, err error) {
 	rows := c.Ali.Rows
-	l := aliLen(c.Ali)
-	in := cli.TempFile(dir, ".fa", cli.Fasta(rows))
-	args := []string{}
-	var exp expect
-	outDir := ""
+	multi := len(c.More) > 0
+	in := ""
+	if multi {
+		all := [][]gen.Row{rows}
+		for _, a := range c.More {
+			all = append(all, a.Rows)
+		}
+		in = cli.TempFile(dir, ".phy", cli.Phylip(all...))
+	} else {
+		in = cli.TempFile(dir, ".fa", cli.Fasta(rows))
+	}
 	o.Class("cmd=%s", c.Cmd)
-	switch c.Cmd {
-	case "subseq":
-		args = []string{"subseq", "-i", in, "-s", fmt.Sprint(c.Start), "-l", fmt.Sprint(c.Len)}
-		if c.Reverse {
-			args = append(args, "-r")
-		}
-		exp = modelWindow(&o, rows, c.Start, c.Len, c.Reverse)
-		o.Class("subseq:%s reverse=%v", winClass(l, c.Start, c.Len), c.Reverse)
-		o.NonTrivial = isBoundary(c.Start, l) || isBoundary(c.Start+c.Len, l)
-	case "subseq-ref":
-		args = []string{"subseq", "-i", in, "--ref-seq", c.Ref, "-s", fmt.Sprint(c.Start), "-l", fmt.Sprint(c.Len)}
-		if c.Reverse {
-			args = append(args, "-r")
-		}
-		ref, known := rowByName(rows, c.Ref)
-		p := nonGap(ref.Seq)
-		switch {
-		case !known || c.Start < 0 || c.Len < 0 || c.Start+c.Len > len(p):
-			exp = fails
-			o.Class("subseq-ref:refused")
-		case c.Len == 0:
-			o.Ambiguous++
-			exp = expect{Any: true}
-			o.Class("subseq-ref:zero-length")
-		default:
-			ws, wn := p[c.Start], p[c.Start+c.Len-1]-p[c.Start]+1
-			exp = modelWindow(&o, rows, ws, wn, c.Reverse)
-			if wn > c.Len {
-				o.Class("subseq-ref:valid-gap-inside-window reverse=%v", c.Reverse)
-			} else {
-				o.Class("subseq-ref:valid reverse=%v", c.Reverse)
+	// plan: the arguments of the command and the model's prediction for one input alignment
+	plan := func(o *pbt.Outcome, rows []gen.Row, primary bool) (args []string, exp expect, outDir string) {
+		l := len(rows[0].Seq)
+		switch c.Cmd {
+		case "subseq":
+			args = []string{"subseq", "-i", in, "-s", fmt.Sprint(c.Start), "-l", fmt.Sprint(c.Len)}
+			if c.Reverse {
+				args = append(args, "-r")
 			}
-			o.NonTrivial = wn > c.Len || isBoundary(c.Start, len(p)) || isBoundary(c.Start+c.Len, len(p))
-		}
-	case "subseq-step":
-		args = []string{"subseq", "-i", in, "-s", fmt.Sprint(c.Start), "-l", fmt.Sprint(c.Len), "--step", fmt.Sprint(c.Step)}
-		if c.Ref != "" {
-			// documented as incompatible
-			args = append(args, "--ref-seq", c.Ref)
-			exp = fails
-			o.Class("subseq-step:with-ref-seq")
-			break
-		}
-		switch {
-		case winValid(l, c.Start, c.Len):
-			var all []gen.Row
-			k := 0
-			for s := c.Start; s+c.Len <= l; s += c.Step {
-				all = append(all, takeCols(rows, span(s, s+c.Len))...)
-				k++
+			exp = modelWindow(o, rows, c.Start, c.Len, c.Reverse)
+			o.Class("subseq:%s reverse=%v", winClass(l, c.Start, c.Len), c.Reverse)
+			o.NonTrivial = isBoundary(c.Start, l) || isBoundary(c.Start+c.Len, l)
+		case "subseq-ref":
+			args = []string{"subseq", "-i", in, "--ref-seq", c.Ref, "-s", fmt.Sprint(c.Start), "-l", fmt.Sprint(c.Len)}
+			if c.Reverse {
+				args = append(args, "-r")
 			}
-			exp = ok(all)
-			o.Class("subseq-step:%d-windows", min(k, 4))
-			o.NonTrivial = k > 1
-		case c.Start >= 0 && c.Start <= l:
-			o.Ambiguous++
-			exp = expect{Any: true} // first window overhangs: refused by the API, truncated by the doc
-			o.Class("subseq-step:first-window-overhangs")
-		default:
-			exp = fails
-			o.Class("subseq-step:refused")
-		}
-	case "subsites", "subsites-ref":
-		args = []string{"subsites", "-i", in}
-		if c.Cmd == "subsites-ref" {
-			args = append(args, "--ref-seq", c.Ref)
-		}
-		if c.Reverse {
-			args = append(args, "-r")
-		}
-		if c.SiteFile {
-			args = append(args, "--sitefile", cli.TempFile(dir, ".txt", strings.Join(itoas(c.Sites), "\n")+"\n"))
-		} else {
-			args = append(args, itoas(c.Sites)...)
-		}
-		bad := len(c.Sites) == 0
-		pos := [][]int{c.Sites} // accepted column lists
-		if c.Cmd == "subsites-ref" {
 			ref, known := rowByName(rows, c.Ref)
 			p := nonGap(ref.Seq)
-			bad = bad || !known
-			for _, s := range c.Sites {
-				bad = bad || s < 0 || s >= len(p)
-			}
-			if !bad {
-				var asc, given []int
-				for _, s := range sortedSet(c.Sites) {
-					asc = append(asc, p[s])
+			switch {
+			case !known || c.Start < 0 || c.Len < 0 || c.Start+c.Len > len(p):
+				exp = fails
+				o.Class("subseq-ref:refused")
+			case c.Len == 0:
+				o.Ambiguous++
+				exp = expect{Any: true}
+				o.Class("subseq-ref:zero-length")
+			default:
+				ws, wn := p[c.Start], p[c.Start+c.Len-1]-p[c.Start]+1
+				exp = modelWindow(o, rows, ws, wn, c.Reverse)
+				if wn > c.Len {
+					o.Class("subseq-ref:valid-gap-inside-window reverse=%v", c.Reverse)
+				} else {
+					o.Class("subseq-ref:valid reverse=%v", c.Reverse)
 				}
+				o.NonTrivial = wn > c.Len || isBoundary(c.Start, len(p)) || isBoundary(c.Start+c.Len, len(p))
+			}
+		case "subseq-step":
+			args = []string{"subseq", "-i", in, "-s", fmt.Sprint(c.Start), "-l", fmt.Sprint(c.Len), "--step", fmt.Sprint(c.Step)}
+			if c.Ref != "" {
+				// documented as incompatible
+				args = append(args, "--ref-seq", c.Ref)
+				exp = fails
+				o.Class("subseq-step:with-ref-seq")
+				break
+			}
+			switch {
+			case winValid(l, c.Start, c.Len):
+				var all []gen.Row
+				k := 0
+				for s := c.Start; s+c.Len <= l; s += c.Step {
+					all = append(all, takeCols(rows, span(s, s+c.Len))...)
+					k++
+				}
+				exp = ok(all)
+				o.Class("subseq-step:%d-windows", min(k, 4))
+				o.NonTrivial = k > 1
+			case c.Start >= 0 && c.Start <= l:
+				o.Ambiguous++
+				exp = expect{Any: true} // first window overhangs: refused by the API, truncated by the doc
+				o.Class("subseq-step:first-window-overhangs")
+			default:
+				exp = fails
+				o.Class("subseq-step:refused")
+			}
+		case "subsites", "subsites-ref":
+			args = []string{"subsites", "-i", in}
+			if c.Cmd == "subsites-ref" {
+				args = append(args, "--ref-seq", c.Ref)
+			}
+			if c.Reverse {
+				args = append(args, "-r")
+			}
+			if c.SiteFile && primary {
+				args = append(args, "--sitefile", cli.TempFile(dir, ".txt", strings.Join(itoas(c.Sites), "\n")+"\n"))
+			} else if !c.SiteFile {
+				args = append(args, itoas(c.Sites)...)
+			}
+			bad := len(c.Sites) == 0
+			pos := [][]int{c.Sites} // accepted column lists
+			if c.Cmd == "subsites-ref" {
+				ref, known := rowByName(rows, c.Ref)
+				p := nonGap(ref.Seq)
+				bad = bad || !known
 				for _, s := range c.Sites {
-					given = append(given, p[s])
+					bad = bad || s < 0 || s >= len(p)
 				}
-				pos = [][]int{asc}
-				if !sameInts(asc, given) && !c.Reverse {
-					pos = append(pos, given)
+				if !bad {
+					var asc, given []int
+					for _, s := range sortedSet(c.Sites) {
+						asc = append(asc, p[s])
+					}
+					for _, s := range c.Sites {
+						given = append(given, p[s])
+					}
+					pos = [][]int{asc}
+					if !sameInts(asc, given) && !c.Reverse {
+						pos = append(pos, given)
+					}
+					o.NonTrivial = len(p) < l
 				}
-				o.NonTrivial = len(p) < l
-			}
-		} else {
-			for _, s := range c.Sites {
-				bad = bad || s < 0 || s >= l
-				o.NonTrivial = o.NonTrivial || isBoundary(s, l)
-			}
-		}
-		switch {
-		case bad:
-			exp = fails
-			o.NonTrivial = len(c.Sites) > 0
-			o.Class("%s:refused", c.Cmd)
-		case c.Reverse:
-			in := map[int]bool{}
-			for _, s := range pos[0] {
-				in[s] = true
-			}
-			var inv []int
-			for i := 0; i < l; i++ {
-				if !in[i] {
-					inv = append(inv, i)
-				}
-			}
-			exp = ok(takeCols(rows, inv))
-			if len(inv) == 0 {
-				o.Ambiguous++
-				exp.AltErr = true
-			}
-			o.Class("%s:valid-reverse", c.Cmd)
-		default:
-			for _, p := range pos {
-				exp.Outs = append(exp.Outs, takeCols(rows, p))
-			}
-			o.Class("%s:valid", c.Cmd)
-		}
-	case "subsites-informative":
-		args = []string{"subsites", "-i", in, "--informative"}
-		if c.Ref != "" {
-			args = append(args, "--ref-seq", c.Ref)
-		}
-		if c.Reverse {
-			args = append(args, "-r")
-		}
-		inf := modelInformative(rows)
-		switch {
-		case len(inf) == 0:
-			exp = fails
-			o.Class("informative:none")
-		case c.Reverse:
-			in := map[int]bool{}
-			for _, s := range inf {
-				in[s] = true
-			}
-			var inv []int
-			for i := 0; i < l; i++ {
-				if !in[i] {
-					inv = append(inv, i)
-				}
-			}
-			exp = ok(takeCols(rows, inv))
-			if len(inv) == 0 {
-				o.Ambiguous++
-				exp.AltErr = true
-			}
-			o.NonTrivial = len(inv) > 0
-			o.Class("informative:reverse")
-		default:
-			exp = ok(takeCols(rows, inf))
-			o.NonTrivial = len(inf) < l
-			o.Class("informative:some")
-		}
-	case "split":
-		sc := c.Split
-		sc.PartL = l
-		sc.Text = true
-		pf := cli.TempFile(dir, ".part", partitionText(sc))
-		outDir, _ = os.MkdirTemp(dir, "split")
-		args = []string{"split", "-i", in, "--partition", pf, "-o", filepath.Join(outDir, "x_")}
-		m := modelPartition(sc.Ranges, l)
-		complete := true
-		for _, p := range m.Site {
-			complete = complete && p >= 0
-		}
-		switch {
-		case m.Status == "outside":
-			exp = fails
-			o.Class("split:range-outside")
-			o.NonTrivial = true
-		case m.Status != "ok":
-			o.Ambiguous++
-			exp = expect{Any: true}
-			o.Class("split:overlap")
-		case !complete:
-			exp = fails
-			o.Class("split:sites-without-partition")
-		case len(m.Names) <= 1:
-			exp = fails
-			o.Class("split:single-partition")
-		default:
-			exp.Files = map[string][]gen.Row{}
-			contiguous := true
-			cols := make([][]int, len(m.Names))
-			for i, p := range m.Site {
-				if n := len(cols[p]); n > 0 && cols[p][n-1] != i-1 {
-					contiguous = false
-				}
-				cols[p] = append(cols[p], i)
-			}
-			for pi, n := range m.Names {
-				exp.Files["x_"+n+".fa"] = takeCols(rows, cols[pi])
-			}
-			o.NonTrivial = !contiguous
-			if contiguous {
-				o.Class("split:contiguous")
 			} else {
-				o.Class("split:non-contiguous")
-			}
-		}
-	case "extract", "extract-ref":
-		var lines []string
-		for _, b := range c.Blocks {
-			f := []string{strings.Join(itoas(b.Starts), ","), strings.Join(itoas(b.Ends), ","), b.Name}
-			if b.Strand != "" {
-				f = append(f, b.Strand)
-			}
-			lines = append(lines, strings.Join(f, "\t"))
-		}
-		cf := cli.TempFile(dir, ".coord", strings.Join(lines, "\n")+"\n")
-		outDir, _ = os.MkdirTemp(dir, "extract")
-		args = []string{"extract", "-i", in, "--coordinates", cf, "-o", outDir}
-		ref, known := rowByName(rows, c.Ref)
-		p := nonGap(ref.Seq)
-		if c.Cmd == "extract-ref" {
-			args = append(args, "--ref-seq", c.Ref)
-		}
-		exp.Files = map[string][]gen.Row{}
-		multi, gapIn, minus := false, false, false
-	lines:
-		for _, b := range c.Blocks {
-			var idx []int
-			for i := range b.Starts {
-				s, e := b.Starts[i], b.Ends[i]
-				if s < 0 || e > l || s >= e {
-					exp = fails
-					break lines
+				for _, s := range c.Sites {
+					bad = bad || s < 0 || s >= l
+					o.NonTrivial = o.NonTrivial || isBoundary(s, l)
 				}
-				if c.Cmd == "extract-ref" {
-					if !known || e > len(p) {
+			}
+			switch {
+			case bad:
+				exp = fails
+				o.NonTrivial = len(c.Sites) > 0
+				o.Class("%s:refused", c.Cmd)
+			case c.Reverse:
+				in := map[int]bool{}
+				for _, s := range pos[0] {
+					in[s] = true
+				}
+				var inv []int
+				for i := 0; i < l; i++ {
+					if !in[i] {
+						inv = append(inv, i)
+					}
+				}
+				exp = ok(takeCols(rows, inv))
+				if len(inv) == 0 {
+					o.Ambiguous++
+					exp.AltErr = true
+				}
+				o.Class("%s:valid-reverse", c.Cmd)
+			default:
+				for _, p := range pos {
+					exp.Outs = append(exp.Outs, takeCols(rows, p))
+				}
+				o.Class("%s:valid", c.Cmd)
+			}
+		case "subsites-informative":
+			args = []string{"subsites", "-i", in, "--informative"}
+			if c.Ref != "" {
+				args = append(args, "--ref-seq", c.Ref)
+			}
+			if c.Reverse {
+				args = append(args, "-r")
+			}
+			inf := modelInformative(rows)
+			switch {
+			case len(inf) == 0:
+				exp = fails
+				o.Class("informative:none")
+			case c.Reverse:
+				in := map[int]bool{}
+				for _, s := range inf {
+					in[s] = true
+				}
+				var inv []int
+				for i := 0; i < l; i++ {
+					if !in[i] {
+						inv = append(inv, i)
+					}
+				}
+				exp = ok(takeCols(rows, inv))
+				if len(inv) == 0 {
+					o.Ambiguous++
+					exp.AltErr = true
+				}
+				o.NonTrivial = len(inv) > 0
+				o.Class("informative:reverse")
+			default:
+				exp = ok(takeCols(rows, inf))
+				o.NonTrivial = len(inf) < l
+				o.Class("informative:some")
+			}
+		case "split":
+			sc := c.Split
+			sc.PartL = l
+			sc.Text = true
+			pf := cli.TempFile(dir, ".part", partitionText(sc))
+			outDir, _ = os.MkdirTemp(dir, "split")
+			args = []string{"split", "-i", in, "--partition", pf, "-o", filepath.Join(outDir, "x_")}
+			m := modelPartition(sc.Ranges, l)
+			complete := true
+			for _, p := range m.Site {
+				complete = complete && p >= 0
+			}
+			switch {
+			case m.Status == "outside":
+				exp = fails
+				o.Class("split:range-outside")
+				o.NonTrivial = true
+			case m.Status != "ok":
+				o.Ambiguous++
+				exp = expect{Any: true}
+				o.Class("split:overlap")
+			case !complete:
+				exp = fails
+				o.Class("split:sites-without-partition")
+			case len(m.Names) <= 1:
+				exp = fails
+				o.Class("split:single-partition")
+			default:
+				exp.Files = map[string][]gen.Row{}
+				contiguous := true
+				cols := make([][]int, len(m.Names))
+				for i, p := range m.Site {
+					if n := len(cols[p]); n > 0 && cols[p][n-1] != i-1 {
+						contiguous = false
+					}
+					cols[p] = append(cols[p], i)
+				}
+				for pi, n := range m.Names {
+					exp.Files["x_"+n+".fa"] = takeCols(rows, cols[pi])
+				}
+				o.NonTrivial = !contiguous
+				if contiguous {
+					o.Class("split:contiguous")
+				} else {
+					o.Class("split:non-contiguous")
+				}
+			}
+		case "extract", "extract-ref":
+			var lines []string
+			for _, b := range c.Blocks {
+				f := []string{strings.Join(itoas(b.Starts), ","), strings.Join(itoas(b.Ends), ","), b.Name}
+				if b.Strand != "" {
+					f = append(f, b.Strand)
+				}
+				lines = append(lines, strings.Join(f, "\t"))
+			}
+			cf := cli.TempFile(dir, ".coord", strings.Join(lines, "\n")+"\n")
+			outDir, _ = os.MkdirTemp(dir, "extract")
+			args = []string{"extract", "-i", in, "--coordinates", cf, "-o", outDir}
+			ref, known := rowByName(rows, c.Ref)
+			p := nonGap(ref.Seq)
+			if c.Cmd == "extract-ref" {
+				args = append(args, "--ref-seq", c.Ref)
+			}
+			exp.Files = map[string][]gen.Row{}
+			multi, gapIn, minus := false, false, false
+		lines:
+			for _, b := range c.Blocks {
+				var idx []int
+				for i := range b.Starts {
+					s, e := b.Starts[i], b.Ends[i]
+					if s < 0 || e > l || s >= e {
 						exp = fails
 						break lines
 					}
-					if p[e-1]-p[s]+1 > e-s {
-						gapIn = true
+					if c.Cmd == "extract-ref" {
+						if !known || e > len(p) {
+							exp = fails
+							break lines
+						}
+						if p[e-1]-p[s]+1 > e-s {
+							gapIn = true
+						}
+						s, e = p[s], p[e-1]+1
 					}
-					s, e = p[s], p[e-1]+1
+					idx = append(idx, span(s, e)...)
 				}
-				idx = append(idx, span(s, e)...)
+				multi = multi || len(b.Starts) > 1
+				sub := takeCols(rows, idx)
+				if b.Strand == "-" {
+					minus = true
+					for i := range sub {
+						sub[i].Seq = complementACGT(sub[i].Seq)
+					}
+				}
+				exp.Files[b.Name+".fa"] = sub
 			}
-			multi = multi || len(b.Starts) > 1
-			sub := takeCols(rows, idx)
-			if b.Strand == "-" {
-				minus = true
-				for i := range sub {
-					sub[i].Seq = complementACGT(sub[i].Seq)
+			if exp.Err {
+				exp.Files = nil
+				o.Class("%s:refused", c.Cmd)
+			} else {
+				o.Class("%s:valid", c.Cmd)
+				if multi {
+					o.Class("%s:valid-several-blocks", c.Cmd)
+				}
+				if minus {
+					o.Class("%s:valid-minus-strand", c.Cmd)
+				}
+				if gapIn {
+					o.Class("%s:valid-gap-inside-block", c.Cmd)
 				}
 			}
-			exp.Files[b.Name+".fa"] = sub
+			o.NonTrivial = multi || gapIn || exp.Err
+		case "trim":
+			args = []string{"trim", "seq", "-i", in, "-n", fmt.Sprint(c.Trim)}
+			if c.FromStart {
+				args = append(args, "-s")
+			}
+			switch {
+			case c.Trim < 0 || c.Trim >= l:
+				exp = fails
+				o.Class("trim:refused")
+			case c.FromStart:
+				exp = ok(takeCols(rows, span(c.Trim, l)))
+				o.Class("trim:from-start")
+			default:
+				exp = ok(takeCols(rows, span(0, l-c.Trim)))
+				o.Class("trim:from-end")
+			}
+			o.NonTrivial = isBoundary(c.Trim, l)
+		case "concat":
+			// every alignment of the input file, then every further file, is appended to the first one
+			args = []string{"concat", "--alphabet", c.Ali.Alphabet, "-i", in}
+			want := rows
+			rest := []gen.Ali{}
+			rest = append(rest, c.More...)
+			for _, a := range c.Others {
+				rest = append(rest, a)
+				if len(c.More) > 0 {
+					args = append(args, cli.TempFile(dir, ".phy", cli.Phylip(a.Rows)))
+				} else {
+					args = append(args, cli.TempFile(dir, ".fa", cli.Fasta(a.Rows)))
+				}
+			}
+			for _, a := range rest {
+				for _, r := range want {
+					if _, found := rowByName(a.Rows, r.Name); !found {
+						o.NonTrivial = true
+					}
+				}
+				for _, r := range a.Rows {
+					if _, found := rowByName(want, r.Name); !found {
+						o.NonTrivial = true
+					}
+				}
+				want = modelConcat(want, a.Rows)
+			}
+			exp = ok(want)
+		case "transpose":
+			args = []string{"transpose", "-i", in}
+			exp = ok(modelTranspose(rows))
+			o.NonTrivial = len(rows) != l
+		case "diff":
+			args = []string{"diff", "-i", in}
+			exp = ok(modelDiff(rows))
+			o.NonTrivial = !gen.SameRows(exp.Outs[0], rows)
+		case "diff-reverse":
+			args = []string{"diff", "--reverse", "-i", in}
+			exp = ok(modelReplace(rows))
+			o.NonTrivial = !gen.SameRows(exp.Outs[0], rows)
 		}
-		if exp.Err {
-			exp.Files = nil
-			o.Class("%s:refused", c.Cmd)
+		return
+	}
+	args, exp, outDir := plan(&o, rows, true)
+	exps := []expect{exp}
+	inputs := [][]gen.Row{rows}
+	if multi {
+		if c.Cmd == "trim" {
+			args = append([]string{"trim", "seq", "-p"}, args[2:]...)
 		} else {
-			o.Class("%s:valid", c.Cmd)
-			if multi {
-				o.Class("%s:valid-several-blocks", c.Cmd)
-			}
-			if minus {
-				o.Class("%s:valid-minus-strand", c.Cmd)
-			}
-			if gapIn {
-				o.Class("%s:valid-gap-inside-block", c.Cmd)
+			args = append([]string{args[0], "-p"}, args[1:]...)
+		}
+		switch c.Layout {
+		case 1:
+			args = append(args, "--one-line")
+		case 2:
+			args = append(args, "--no-block")
+		case 3:
+			args = append(args, "--one-line", "--no-block")
+		}
+		o.Class("multi:%s", c.Cmd)
+		if multiCmd[c.Cmd] {
+			// the same options, judged for every alignment of the stream with the oracle of ITS alignment
+			for _, a := range c.More {
+				var o2 pbt.Outcome
+				_, e2, _ := plan(&o2, a.Rows, false)
+				o.Ambiguous += o2.Ambiguous
+				o.NonTrivial = o.NonTrivial || o2.NonTrivial
+				exps = append(exps, e2)
+				inputs = append(inputs, a.Rows)
 			}
 		}
-		o.NonTrivial = multi || gapIn || exp.Err
-	case "trim":
-		args = []string{"trim", "seq", "-i", in, "-n", fmt.Sprint(c.Trim)}
-		if c.FromStart {
-			args = append(args, "-s")
-		}
-		switch {
-		case c.Trim < 0 || c.Trim >= l:
-			exp = fails
-			o.Class("trim:refused")
-		case c.FromStart:
-			exp = ok(takeCols(rows, span(c.Trim, l)))
-			o.Class("trim:from-start")
-		default:
-			exp = ok(takeCols(rows, span(0, l-c.Trim)))
-			o.Class("trim:from-end")
-		}
-		o.NonTrivial = isBoundary(c.Trim, l)
-	case "concat":
-		args = []string{"concat", "--alphabet", c.Ali.Alphabet, "-i", in}
-		want := rows
-		for _, a := range c.Others {
-			args = append(args, cli.TempFile(dir, ".fa", cli.Fasta(a.Rows)))
-			for _, r := range want {
-				if _, found := rowByName(a.Rows, r.Name); !found {
-					o.NonTrivial = true
-				}
-			}
-			for _, r := range a.Rows {
-				if _, found := rowByName(want, r.Name); !found {
-					o.NonTrivial = true
-				}
-			}
-			want = modelConcat(want, a.Rows)
-		}
-		exp = ok(want)
-	case "transpose":
-		args = []string{"transpose", "-i", in}
-		exp = ok(modelTranspose(rows))
-		o.NonTrivial = len(rows) != l
-	case "diff":
-		args = []string{"diff", "-i", in}
-		exp = ok(modelDiff(rows))
-		o.NonTrivial = !gen.SameRows(exp.Outs[0], rows)
-	case "diff-reverse":
-		args = []string{"diff", "--reverse", "-i", in}
-		exp = ok(modelReplace(rows))
-		o.NonTrivial = !gen.SameRows(exp.Outs[0], rows)
 	}
 
 	r := cli.Run("", args...)
@@ -694,7 +815,11 @@ func checkCLI(dir string, c cliCase) (o pbt.Outcome, err error) {
 	}
 	defer os.Remove(in)
 	show := func() string {
-		return fmt.Sprintf("goalign %s (input %s)", strings.Join(args[0:], " "), gen.Show(rows))
+		d := gen.Show(rows)
+		for _, a := range c.More {
+			d += "| " + gen.Show(a.Rows)
+		}
+		return fmt.Sprintf("goalign %s (input %s)", strings.Join(args[0:], " "), d)
 	}
 	if r.TimedOut {
 		return o, fmt.Errorf("%s did not return", show())
@@ -702,17 +827,33 @@ func checkCLI(dir string, c cliCase) (o pbt.Outcome, err error) {
 	if strings.Contains(r.Stderr, "panic:") || strings.Contains(r.Stderr, "goroutine 1 [") {
 		return o, fmt.Errorf("%s crashed (status %d):\n%s", show(), r.Exit, firstLines(r.Stderr, 12))
 	}
-	if exp.Any {
+	anyOpen, mustFail, mayFail := false, false, false
+	for _, e := range exps {
+		anyOpen = anyOpen || e.Any
+		mustFail = mustFail || e.Err
+		mayFail = mayFail || e.AltErr
+	}
+	if multi && multiCmd[c.Cmd] {
+		switch {
+		case mustFail && exps[0].Err:
+			o.Class("multi:refused-for-the-first-alignment")
+		case mustFail:
+			o.Class("multi:refused-for-a-later-alignment")
+		case !anyOpen:
+			o.Class("multi:valid-for-every-alignment")
+		}
+	}
+	if anyOpen {
 		return o, nil
 	}
-	if exp.Err {
+	if mustFail {
 		if r.Exit == 0 {
-			return o, fmt.Errorf("%s: the request is outside the alignment (or malformed) but the status is 0; output:\n%s", show(), firstLines(r.Stdout, 12))
+			return o, fmt.Errorf("%s: the request is outside (one of) the alignment(s) or malformed but the status is 0; output:\n%s", show(), firstLines(r.Stdout, 12))
 		}
 		return o, nil
 	}
 	if r.Exit != 0 {
-		if exp.AltErr {
+		if mayFail {
 			return o, nil
 		}
 		return o, fmt.Errorf("%s: a valid request failed with status %d: %s", show(), r.Exit, firstLines(r.Stderr, 3))
@@ -741,19 +882,47 @@ func checkCLI(dir string, c cliCase) (o pbt.Outcome, err error) {
 		}
 		return o, nil
 	}
-	got, e := cli.ParseFasta(r.Stdout)
-	if e != nil {
-		return o, fmt.Errorf("%s: unreadable output: %v", show(), e)
+	// standard output: one alignment (FASTA), or a Phylip stream read as the flat list of its rows
+	var got []gen.Row
+	same := gen.SameRows
+	if multi {
+		stream, e := cli.ParsePhylipStream(r.Stdout)
+		if e != nil {
+			return o, fmt.Errorf("%s: unreadable Phylip output: %v\n%s", show(), e, firstLines(r.Stdout, 12))
+		}
+		for _, al := range stream {
+			got = append(got, al...)
+		}
+		same = samePhylipRows
+	} else if got, err = cli.ParseFasta(r.Stdout); err != nil {
+		return o, fmt.Errorf("%s: unreadable output: %v", show(), err)
 	}
-	for i, want := range exp.Outs {
-		if gen.SameRows(got, want) {
-			if i > 0 {
-				o.Ambiguous++
+	// every input alignment contributes, in order, one of its accepted outputs
+	pos := 0
+	for k, e := range exps {
+		matched := false
+		for i, want := range e.Outs {
+			if pos+len(want) <= len(got) && same(got[pos:pos+len(want)], want) {
+				if i > 0 {
+					o.Ambiguous++
+				}
+				pos += len(want)
+				matched = true
+				break
 			}
-			return o, nil
+		}
+		if !matched {
+			rest := got[pos:]
+			if len(rest) > len(e.Outs[0]) {
+				rest = rest[:len(e.Outs[0])]
+			}
+			return o, fmt.Errorf("%s: output for input alignment %d (%s)\n got : %s\n want: %s", show(), k, gen.Show(inputs[k]), gen.Show(rest), gen.Show(e.Outs[0]))
 		}
 	}
-	return o, fmt.Errorf("%s\n got : %s\n want: %s", show(), gen.Show(got), gen.Show(exp.Outs[0]))
+	if pos != len(got) {
+		return o, fmt.Errorf("%s: %d unexpected extra rows in the output: %s", show(), len(got)-pos, gen.Show(got[pos:]))
+	}
+	return o, nil
 }
 
 func firstLines(s string, n int) string {
